@@ -168,7 +168,9 @@ func c20tonsq(c *an.Ctx) {
 		elems := il.Elems()
 		q := &an.PathQ{Fn: fn, StartEdges: []an.Edge{{From: il.Header, To: il.Body}},
 			SinkEdge: func(e an.Edge, _ *an.PathState) bool { return e.To == il.Header },
-			Cut:      func(in ssa.Instruction, _ *an.PathState) bool { return in == pc.(ssa.Instruction) && valueIn(recvArg(pc), elems) }}
+			Cut: func(in ssa.Instruction, _ *an.PathState) bool {
+				return in == pc.(ssa.Instruction) && valueIn(recvArg(pc), elems)
+			}}
 		if _, skip := q.Find(); skip {
 			good = false
 		}
@@ -287,7 +289,9 @@ func c20nsq2nsq(c *an.Ctx) {
 			_ = il
 		}
 		q := &an.PathQ{Fn: resp, SinkEdge: func(e an.Edge, _ *an.PathState) bool { return e.To == l.Header && l.Blocks[e.From] },
-			Cut: func(in ssa.Instruction, _ *an.PathState) bool { return isCallToOn(in, finish, nil) || isCallToOn(in, requeue, nil) }}
+			Cut: func(in ssa.Instruction, _ *an.PathState) bool {
+				return isCallToOn(in, finish, nil) || isCallToOn(in, requeue, nil)
+			}}
 		for _, s := range l.Header.Succs {
 			if l.Blocks[s] {
 				q.StartEdges = append(q.StartEdges, an.Edge{From: l.Header, To: s})
@@ -322,6 +326,26 @@ func c20nsq2nsq(c *an.Ctx) {
 		c.Bad(handle, "auto-response disabled only after the publish was accepted", handle.Pos(), "auto-response is disabled although PublishAsync failed: nobody will ever FIN/REQ the message (no transaction is delivered for it)", w)
 	} else {
 		c.OK(handle, "auto-response disabled only after the publish was accepted", handle.Pos(), "")
+	}
+	// and always: once PublishAsync accepted the message, returning nil with auto-response still enabled lets the
+	// client library FIN the source message before the destination answered
+	var after []ssa.Instruction
+	var fails []an.Edge
+	for _, pc := range an.CallsTo(handle, pubAsync) {
+		after = append(after, pc.(ssa.Instruction))
+		_, fl := an.ErrEdgesPhi(pc.Value())
+		fails = append(fails, fl...)
+	}
+	q2 := &an.PathQ{Fn: handle, StartAfter: after, Sink: sinkSuccessReturn,
+		CutEdge: func(e an.Edge, _ *an.PathState) bool { return an.EdgeIn(e, fails) },
+		Cut: func(in ssa.Instruction, _ *an.PathState) bool {
+			return isCallToOn(in, disable, nil) && isParam(recvArg(in.(ssa.CallInstruction)), handle, 1)
+		}}
+	w2, f2 := q2.Find()
+	if f2 || len(succ) == 0 {
+		c.Bad(handle, "auto-response disabled whenever the publish was handed off", handle.Pos(), "after a successful PublishAsync (in some publishing mode) HandleMessage returns nil without DisableAutoResponse(): go-nsq finishes the source message at once, and if the destination later rejects or drops the publish the responder's requeue comes too late – the message is lost", w2)
+	} else {
+		c.OK(handle, "auto-response disabled whenever the publish was handed off", handle.Pos(), "")
 	}
 }
 
